@@ -174,13 +174,19 @@ Qed.
 
 (* ForEachResourceRecord of the sorted reader never panics on a valid name, whatever the store,
    the cache and the callback *)
+Lemma for_each_rr_v2_pack : forall {S} st c n loc (f : cb S) s, nm_ok n -> nlen (pack n) <= 255 ->
+  exists r, for_each_rr_v2 st c (pack n) loc f s = Val r.
+Proof.
+  intros S st c n loc f s Hn Hlen.
+  unfold for_each_rr_v2. rewrite (rev_into_gen n 2 Hn Hlen). cbn [bind].
+  destruct (if is_loc0 loc then (s, false, c) else for_each_v2 st c _ f s) as [[s1 e1] c1].
+  destruct e1; eexists; reflexivity.
+Qed.
 Lemma for_each_rr_v2_vname : forall {S} st c l loc (f : cb S) s, vname l ->
   exists r, for_each_rr_v2 st c l loc f s = Val r.
 Proof.
   intros S st c l loc f s [Hw Hlen]. destruct (wnP_pack l Hw) as [n [-> [Hn _]]].
-  unfold for_each_rr_v2. rewrite (rev_into_gen n 2 Hn Hlen). cbn [bind].
-  destruct (if is_loc0 loc then (s, false, c) else for_each_v2 st c _ f s) as [[s1 e1] c1].
-  destruct e1; eexists; reflexivity.
+  apply for_each_rr_v2_pack; assumption.
 Qed.
 
 (* ---------------------------------------------------------------- boundaries of a packed name *)
